@@ -263,7 +263,22 @@ Definition status_ok (st : N) (refs : list N) (ok : N) : bool :=
   | _ => existsb (N.eqb st) refs
   end.
 
-Definition entry_ok (sb : option node) (root p : path) (depth : N) (names_only : bool) (e : ms_entry) : bool :=
+(** The media type of a stored file: the type registered for the extension of its
+    name (mime.TypeByExtension, an input: [mime_tab]); GET and HEAD fall back to the
+    type detected from the content ([sniffed], http.DetectContentType). *)
+Definition registered_type (r : request) (name : string) : string := mime_of (mime_tab r) (ext_of name).
+
+Definition spec_content_type (root : path) (r : request) (p : path) : string :=
+  match strip_prefix root p with
+  | Some segs =>
+    let m := registered_type r (external_path segs) in
+    if negb (String.eqb m "") then m
+    else let m2 := registered_type r (rpath r) in
+         if negb (String.eqb m2 "") then m2 else sniffed r
+  | None => ""%string
+  end.
+
+Definition entry_ok (r : request) (sb : option node) (root p : path) (depth : N) (names_only : bool) (e : ms_entry) : bool :=
   let M := abs sb in
   (* the href is the canonical external path of an in-scope resource, described as stored *)
   match local_segs (me_href e) with
@@ -272,11 +287,12 @@ Definition entry_ok (sb : option node) (root p : path) (depth : N) (names_only :
     String.eqb (me_href e) (external_path segs) && in_scope p depth q &&
     match M q with
     | None => false
-    | Some ACol => (names_only || me_dir e) && String.eqb (me_clen e) "" && String.eqb (me_etag e) ""
+    | Some ACol => (names_only || me_dir e) && String.eqb (me_clen e) "" && String.eqb (me_etag e) "" && String.eqb (me_ctype e) ""
     | Some (AFile c) =>
       negb (me_dir e) &&
-      (if names_only then String.eqb (me_clen e) "" && String.eqb (me_etag e) ""
-       else String.eqb (me_clen e) (dec (strlen c)) && String.eqb (me_etag e) (tag_at "" sb q))
+      (if names_only then String.eqb (me_clen e) "" && String.eqb (me_etag e) "" && String.eqb (me_ctype e) ""
+       else String.eqb (me_clen e) (dec (strlen c)) && String.eqb (me_etag e) (tag_at "" sb q) &&
+            String.eqb (me_ctype e) (registered_type r (me_href e)))
     end
   | _ => false
   end.
@@ -309,14 +325,15 @@ Definition spec_ok (root : path) (sb : option node) (r : request) (o : response)
         String.eqb (r_clen o) (dec (strlen c)) &&
         (if head then match r_body o with None => true | Some _ => false end
          else match r_body o with Some b => String.eqb b c | None => false end) &&
-        String.eqb (r_etag o) (quote_tag (tag_at "" sb p))
+        String.eqb (r_etag o) (quote_tag (tag_at "" sb p)) &&
+        String.eqb (r_ctype o) (spec_content_type root r p)
       | _ => false
       end
     | APut p c _ => String.eqb (r_etag o) (quote_tag (tag_at "" sb' p))
     | APropfind p depth names_only =>
       (* every entry describes an in-scope stored resource under its canonical href, once;
          every in-scope resource has an entry *)
-      forallb (entry_ok sb root p depth names_only) (r_ms o) &&
+      forallb (entry_ok r sb root p depth names_only) (r_ms o) &&
       forallb (fun e => Nat.eqb (count_href (me_href e) (r_ms o)) 1%nat) (r_ms o) &&
       forallb (fun q => negb (in_scope p depth q) || negb (mapped (M q)) ||
                         match strip_prefix root q with
